@@ -160,6 +160,7 @@ PROPS["C17"] = {
 
 PROPS["C18"] = {
     "level": "proof",
+    "observational": "library-valid-spec-fails-builtin-schema|written-json-file-fails-builtin-schema|written-yaml-file-fails-builtin-schema|schema-validator-rejects",
     "streams": ["schema"],
     "ops": ["typed"],
     "trusted_base": ["encoding/json struct encoding modelled by CdiModel/Encode.lean per the struct tags (F3)",
